@@ -317,7 +317,7 @@ def jobs_for(pid, tier, seed):
         for k in range(2 if q else 8): J.append({'name': f'translation validation, unmanaged ({40 if q else 100} traces, offset {k * 1000})', 'kind': 'validate_unmanaged',
                                                  'cfg': {'traces': 40 if q else 100, 'offset': k * 1000}, 'crates': ['deadpool']})
     for i, j in enumerate(J):
-        j['seed'] = seed; j['tier'] = tier; j['pid'] = pid; j['budget'] = int(os.environ['VERIF_BUDGET_S']) if os.environ.get('VERIF_BUDGET_S') else (150 if q else 1500)
+        j['seed'] = seed; j['tier'] = tier; j['pid'] = pid; j['budget'] = int(os.environ['VERIF_BUDGET_S']) if os.environ.get('VERIF_BUDGET_S') else (150 if q else 900)
     return J
 
 
